@@ -1,7 +1,6 @@
 package c15
 
 import (
-	"bytes"
 	"compress/gzip"
 	"fmt"
 	"math/rand"
@@ -43,8 +42,7 @@ func largeClouds(c *run.Ctx) (res run.Result) {
 		level := largeGz[(c.Case/2+k)%len(largeGz)]
 		s := splatref.RandomSPZ(r, version, n, deg, uint8(r.Intn(24)), uint8(r.Intn(2)), true)
 		data := s.Gzip(level)
-		c.SaveInput(data)
-		if checkSPZ(c, &res, s, bytes.NewReader(data), len(data), level, "") {
+		if checkSPZ(c, &res, s, data, level, "") {
 			res.Count("large/spz_points_compared", int64(n))
 			res.SetAdd("large/spz_configs", fmt.Sprintf("v%d/sh%d", version, deg))
 		}
